@@ -149,6 +149,18 @@ fn build(seed: u64) -> Layout {
         }
         main.push_str(&format!("int[32] after_{} = 2;\n", includes_in_main.len()));
     }
+    // a path whose last component is `stdgates.inc` is an ordinary file path, not the built-in
+    // library (which is spelled exactly `stdgates.inc`); it is followed by another include so that
+    // a slip in the pairing of include statements and files read becomes visible
+    if r.chance(1, 4) {
+        // (the directory does not exist: whether `./stdgates.inc` may read a decoy file of that
+        // name is not something the property settles, so it is not generated)
+        main.push_str(*r.pick(&["include \"nowhere/stdgates.inc\";\n", "include \"no/such/dir/stdgates.inc\";\n"]));
+        let f = r.usize(nfiles);
+        main.push_str(&format!("include \"{}\";\n", fname(f)));
+        includes_in_main.push((f, false));
+        main.push_str("int[32] after_dir_stdgates = 3;\n");
+    }
     if r.chance(1, 4) {
         main.push_str("include \"does_not_exist.qasm\";\n");
     }
